@@ -4,7 +4,8 @@
 Mirrors, as they are in the tree (after the `fix:` commit recorded in notes/C13.md):
 
 * `internal/target/remote/dane.go`      : `verifyDANE`
-* `internal/target/remote/security.go`  : `daneDelivery.discoverTLSA`, `daneDelivery.CheckConn`
+* `internal/target/remote/security.go`  : `daneDelivery.discoverTLSA`, `daneDelivery.CheckConn`,
+  `daneDelivery.PrepareConn` (the lookup goroutine: a recovered panic leaves the future empty)
 * `framework/dns/dnssec.go`             : `ExtResolver.exchange` (server loop, AD sanitising),
   `CheckCNAMEAD`, `AuthLookupCNAME`, `AuthLookupTLSA`, `isLoopback` (as the flag `Srv.loopback`)
 * `internal/target/remote/connect.go`   : `remoteDelivery.connect` (the STARTTLS / retry ladder that
@@ -163,6 +164,9 @@ inductive DiscErr where
   | lookup (e : LErr)
   /-- `errors.New("no address associated with the host")` -/
   | noAddress
+  /-- not an error of `discoverTLSA`: the future was never completed (the lookup goroutine crashed)
+  and `c.tlsaFut.GetContext(ctx)` returned `ctx.Err()` when the delivery's context ended -/
+  | incomplete
 deriving DecidableEq, Repr
 
 def DiscErr.isNotFound : DiscErr → Bool
@@ -239,6 +243,22 @@ def checkConn (E : Env) (haveResolver : Bool) (fut : Except DiscErr (List Rec)) 
 /-- `PrepareConn` + `CheckConn` on one connection -/
 def connDecision (E : Env) (haveResolver : Bool) (D : Dns) (hs : Bool) (chain : List Cert) : CRes :=
   checkConn E haveResolver (discoverTLSA D) hs chain
+
+/-- `PrepareConn` and the wait in `CheckConn`. `disc` = how the lookup goroutine ended: `some r` —
+`discoverTLSA` returned `r` and `fut.Set(r)` ran; `none` — it panicked (in the resolver library, on a
+missing response, anywhere): the deferred handler recovers and logs, and does NOT complete the
+future, so `GetContext` returns only when the context ends, with its error. A crashed discovery is a
+failed discovery; it never turns into "no records". -/
+def prepareConn (disc : Option (Except DiscErr (List Rec))) : Except DiscErr (List Rec) :=
+  match disc with
+  | some r => r
+  | none => .error .incomplete
+
+/-- `PrepareConn` + `CheckConn` on one connection when the discovery may crash (`crashed`: a panic was
+raised inside the lookup goroutine) -/
+def connDecisionC (E : Env) (haveResolver : Bool) (crashed : Bool) (D : Dns) (hs : Bool)
+    (chain : List Cert) : CRes :=
+  checkConn E haveResolver (prepareConn (if crashed then none else some (discoverTLSA D))) hs chain
 
 /-! ## `framework/dns/dnssec.go`: the resolver the four lookups go through -/
 
@@ -342,10 +362,10 @@ def resolverDns (T : Transport) (W : List Srv) : Option Dns :=
   | some ck, some cn, some tr, some tm => some ⟨ck, cn, tr, tm⟩
   | _, _, _, _ => none
 
-/-- `PrepareConn` + `CheckConn` with the lookups made through the resolver -/
-def resolverConn (E : Env) (T : Transport) (W : List Srv) (hs : Bool) (chain : List Cert) :
-    Option CRes :=
-  (resolverDns T W).map (fun D => connDecision E true D hs chain)
+/-- `PrepareConn` + `CheckConn` with the lookups made through the resolver. A nil dereference
+(`resolverDns … = none`) happens inside the lookup goroutine, which recovers: `prepareConn none`. -/
+def resolverConn (E : Env) (T : Transport) (W : List Srv) (hs : Bool) (chain : List Cert) : CRes :=
+  checkConn E true (prepareConn ((resolverDns T W).map discoverTLSA)) hs chain
 
 /-! ## `connect.go`: the connection state `CheckConn` is handed
 
@@ -406,16 +426,22 @@ inductive TLSLevel where
   | authenticated
 deriving DecidableEq, Repr
 
-/-- `tls.ConnectionState` of the connection `connect` leaves, as far as `verifyDANE` reads it -/
+/-- `tls.ConnectionState` of the connection `connect` leaves, as far as `verifyDANE` reads it — and
+one field it does NOT read -/
 structure ConnState where
   hs : Bool
   /-- `ServerName`: the name the CLIENT configured for the handshake (`none` = "") -/
   serverName : Option Name
   chain : List Cert
+  /-- `len(VerifiedChains) != 0`: crypto/tls verified the presented chain itself (a handshake made
+  without `InsecureSkipVerify` that completed). No function of the DANE decision reads it: a chain
+  that passes ordinary verification is not thereby anchored at the certificate a DANE-TA record
+  asserts. -/
+  verified : Bool
 deriving DecidableEq, Repr
 
 /-- the zero `tls.ConnectionState` of a plaintext connection -/
-def ConnState.plain : ConnState := ⟨false, none, []⟩
+def ConnState.plain : ConnState := ⟨false, none, [], false⟩
 
 inductive ConnectRes where
   /-- `err != nil`: this MX is given up -/
@@ -439,7 +465,7 @@ def connectLoop (srv : Nat → Attempt) : Nat → Nat → Option TlsCfg → TLSL
         else if !a.starttlsCmdOk then .fail                       -- no fall-back
         else
           match a.hello c with
-          | .ok => .ok level ⟨true, c.serverName, a.chain⟩
+          | .ok => .ok level ⟨true, c.serverName, a.chain, !c.insecure⟩
           | .verifyErr =>
             if level == .authenticated then
               -- `tlsCfg.InsecureSkipVerify = true` on the SAME configuration: ServerName stays
